@@ -299,6 +299,7 @@ def _sqlite(check: Check):
   c08._cursors(check, 'R-PAIR.cursor')
   # every client that was written can be looked up again, whatever its size (a stored size of 0 is a size, not "missing")
   c08._keyerror(check)
+  c08._sql(check)
   rd = repo.func(SQL, 'decompress_and_deserialize')
   rff = FuncFlow.of(repo, rd)
   check.analysed(rd)
